@@ -10,5 +10,6 @@ From Chess3 Require Export Model.BoardStreams.
 From Chess3 Require Export Spec.ChessJudge.
 From Chess3 Require Export Model.SeqStreams.
 From Chess3 Require Export Spec.SnapJudge.
+From Chess3 Require Export Model.TT Spec.TTSpec.
 
 Extraction Language OCaml.
